@@ -190,20 +190,22 @@ mod v_wire_cksum {
         if kani::any() { Checksum::None } else { Checksum::Tx }
     }
 
-    /// XOR a non-zero corruption into one or two bytes of `buf[first..n]` (n <= 28) at symbolic
-    /// positions.  Written as per-index conditional updates so that bytes outside `first..n` stay
-    /// concrete for the symbolic executor.
-    fn corrupt(buf: &mut [u8], first: usize, n: usize) {
+    /// XOR a non-zero corruption into one or two bytes of `buf` at symbolic positions chosen among
+    /// the positions whose bit is set in `allowed` (positions < 28).  Written as per-index
+    /// conditional updates so that bytes outside `allowed` stay concrete for the symbolic executor
+    /// (a symbolic TCP data offset or ICMPv6 type makes the parsers explore every option / message
+    /// parser: out of memory at 6 GB, measured).
+    fn corrupt(buf: &mut [u8], allowed: u32) {
         let p1: usize = kani::any();
         let p2: usize = kani::any();
         let m1: u8 = kani::any();
         let m2: u8 = kani::any();
-        kani::assume(first <= p1 && p1 < n && first <= p2 && p2 < n);
+        kani::assume(p1 < 28 && p2 < 28 && (allowed >> p1) & 1 == 1 && (allowed >> p2) & 1 == 1);
         kani::assume(m1 != 0);
         // m2 == 0: single-byte corruption; the same position twice must not cancel
         kani::assume(p1 != p2 || m1 != m2);
         unrolled!(i in [0, 1, 2, 3, 4, 5, 6, 7, 8, 9, 10, 11, 12, 13, 14, 15, 16, 17, 18, 19, 20, 21, 22, 23, 24, 25, 26, 27] {
-            if first <= i && i < n {
+            if (allowed >> i) & 1 == 1 {
                 if p1 == i {
                     buf[i] ^= m1;
                 }
@@ -212,6 +214,11 @@ mod v_wire_cksum {
                 }
             }
         });
+    }
+
+    /// bit mask of positions 0..n
+    const fn upto(n: u32) -> u32 {
+        (1u32 << n) - 1
     }
 
     // ================================================================== (a) the routine itself
@@ -895,7 +902,7 @@ mod v_wire_cksum {
             buf[10] = kani::any();
             buf[11] = kani::any();
         } else {
-            corrupt(&mut buf, 0, 20);
+            corrupt(&mut buf, upto(20));
         }
         let ok = ref_ipv4_ok(&buf);
         let strict = Ipv4Repr::parse(&Ipv4Packet::new_unchecked(&buf[..]), &ChecksumCapabilities::default()).is_ok();
@@ -916,7 +923,7 @@ mod v_wire_cksum {
     }
 
     /// proto 1 = ICMP echo request (ICMPv4 / ICMPv6), 17 = UDP, 6 = TCP without options; 4 payload bytes
-    fn rx_l4(proto: u8, v6: bool, smask: u32, dmask: u32, fmask: u32, arbitrary_field: bool, first: usize) {
+    fn rx_l4(proto: u8, v6: bool, smask: u32, dmask: u32, fmask: u32, arbitrary_field: bool, allowed: u32) {
         let src = pick(SRC_FIX, smask);
         let dst = pick(DST_FIX, dmask);
         let caps = ChecksumCapabilities::default();
@@ -933,7 +940,7 @@ mod v_wire_cksum {
             seg[cks] = kani::any();
             seg[cks + 1] = kani::any();
         } else {
-            corrupt(seg, first, n);
+            corrupt(seg, allowed);
         }
         let field = be16(seg[cks], seg[cks + 1]);
         let (ok, strict, lax) = match proto {
@@ -956,37 +963,37 @@ mod v_wire_cksum {
     // @harness props=C08 cfg=KW tier=q to=600 mem=4 unwind=8 opts=nomem covers=2 funcs=wire::Icmpv4Repr::parse;wire::Icmpv4Packet::verify_checksum bounds=emitted_echo_request_(ident_symbolic,_4_data_bytes);_non-zero_XOR_mask_on_1_or_2_bytes_at_symbolic_positions_0..12
     #[kani::proof]
     pub(crate) fn reject_invalid_icmpv4() {
-        rx_l4(1, false, 0, 0, 0x3, false, 0);
+        rx_l4(1, false, 0, 0, 0x3, false, upto(12));
     }
 
-    // @harness props=C08 cfg=KW tier=q to=600 mem=6 unwind=8 opts=nomem covers=2 funcs=wire::Icmpv6Repr::parse;wire::Icmpv6Packet::verify_checksum bounds=emitted_echo_request_(ident_symbolic,_4_data_bytes);_non-zero_XOR_mask_on_1_or_2_bytes_at_symbolic_positions_0..12_(the_type_byte_may_turn_into_any_message_type)
+    // @harness props=C08 cfg=KW tier=q to=600 mem=4 unwind=8 opts=nomem covers=2 funcs=wire::Icmpv6Repr::parse;wire::Icmpv6Packet::verify_checksum bounds=emitted_echo_request_(ident_symbolic,_4_data_bytes);_non-zero_XOR_mask_on_1_or_2_bytes_at_symbolic_positions_1..12_(type_byte:_see_verify_agrees_icmpv6_type)
     #[kani::proof]
     pub(crate) fn reject_invalid_icmpv6() {
-        rx_l4(1, true, 0, 0, 0x3, false, 0);
+        rx_l4(1, true, 0, 0, 0x3, false, upto(12) & !1);
     }
 
     // @harness props=C08 cfg=KW tier=q to=600 mem=4 unwind=8 opts=nomem covers=2 funcs=wire::UdpRepr::parse;wire::UdpPacket::verify_checksum bounds=emitted_datagram_(source_port_symbolic,_4_payload_bytes);_non-zero_XOR_mask_on_1_or_2_bytes_at_symbolic_positions_0..12
     #[kani::proof]
     pub(crate) fn reject_invalid_udp4() {
-        rx_l4(17, false, 0, 0, 0x3, false, 0);
+        rx_l4(17, false, 0, 0, 0x3, false, upto(12));
     }
 
     // @harness props=C08 cfg=KW tier=q to=600 mem=4 unwind=8 opts=nomem covers=2 funcs=wire::UdpRepr::parse;wire::UdpPacket::verify_checksum bounds=emitted_datagram_(source_port_symbolic,_4_payload_bytes);_non-zero_XOR_mask_on_1_or_2_bytes_at_symbolic_positions_0..12;_resulting_checksum_field_non-zero
     #[kani::proof]
     pub(crate) fn reject_invalid_udp6() {
-        rx_l4(17, true, 0, 0, 0x3, false, 0);
+        rx_l4(17, true, 0, 0, 0x3, false, upto(12));
     }
 
-    // @harness props=C08 cfg=KW tier=q to=600 mem=6 unwind=8 opts=nomem covers=2 funcs=wire::TcpRepr::parse;wire::TcpPacket::verify_checksum bounds=emitted_segment_(source_port_symbolic,_no_options,_4_payload_bytes);_non-zero_XOR_mask_on_1_or_2_bytes_at_symbolic_positions_0..24_(the_data_offset_may_turn_the_payload_into_options)
+    // @harness props=C08 cfg=KW tier=q to=600 mem=4 unwind=8 opts=nomem covers=2 funcs=wire::TcpRepr::parse;wire::TcpPacket::verify_checksum bounds=emitted_segment_(source_port_symbolic,_no_options,_4_payload_bytes);_non-zero_XOR_mask_on_1_or_2_bytes_at_symbolic_positions_0..24_except_12_(data_offset:_see_reject_invalid_tcp4_offset)
     #[kani::proof]
     pub(crate) fn reject_invalid_tcp4() {
-        rx_l4(6, false, 0, 0, 0x3, false, 0);
+        rx_l4(6, false, 0, 0, 0x3, false, upto(24) & !(1 << 12));
     }
 
-    // @harness props=C08 cfg=KW tier=q to=600 mem=6 unwind=8 opts=nomem covers=2 funcs=wire::TcpRepr::parse;wire::TcpPacket::verify_checksum bounds=emitted_segment_(source_port_symbolic,_no_options,_4_payload_bytes);_non-zero_XOR_mask_on_1_or_2_bytes_at_symbolic_positions_0..24
+    // @harness props=C08 cfg=KW tier=q to=600 mem=4 unwind=8 opts=nomem covers=2 funcs=wire::TcpRepr::parse;wire::TcpPacket::verify_checksum bounds=emitted_segment_(source_port_symbolic,_no_options,_4_payload_bytes);_non-zero_XOR_mask_on_1_or_2_bytes_at_symbolic_positions_0..24_except_12
     #[kani::proof]
     pub(crate) fn reject_invalid_tcp6() {
-        rx_l4(6, true, 0, 0, 0x3, false, 0);
+        rx_l4(6, true, 0, 0, 0x3, false, upto(24) & !(1 << 12));
     }
 
     // @harness props=C08 cfg=KW tier=q to=600 mem=4 unwind=8 opts=nomem covers=2 funcs=wire::Icmpv4Repr::parse;wire::Icmpv4Packet::verify_checksum bounds=emitted_echo_request_(ident,_seq_symbolic,_4_data_bytes);_arbitrary_checksum_field
@@ -1023,6 +1030,30 @@ mod v_wire_cksum {
     #[kani::proof]
     pub(crate) fn accept_implies_valid_tcp6() {
         rx_l4(6, true, 0xc000, 0x0003, 0xf, true, 0);
+    }
+
+    // data-offset byte corrupted (the payload may become options), optionally compensated in the checksum field
+    // @harness props=C08 cfg=KW tier=q to=600 mem=6 unwind=8 opts=nomem covers=2 funcs=wire::TcpRepr::parse;wire::TcpPacket::verify_checksum;wire::TcpOption::parse bounds=emitted_segment_(source_port_symbolic,_no_options,_4_payload_bytes);_non-zero_XOR_mask_on_1_or_2_of_the_bytes_12_(data_offset),_16,_17_(checksum_field)
+    #[kani::proof]
+    pub(crate) fn reject_invalid_tcp4_offset() {
+        rx_l4(6, false, 0, 0, 0x3, false, (1 << 12) | (1 << 16) | (1 << 17));
+    }
+
+    // ICMPv6 type byte corrupted: `Icmpv6Repr::parse` with a symbolic message type explores every
+    // NDISC / MLD parser (out of memory at 6 GB), so the gate `parse` uses is checked directly.
+    // @harness props=C08 cfg=KW tier=q to=600 mem=4 unwind=8 opts=nomem covers=2 funcs=wire::Icmpv6Packet::verify_checksum bounds=emitted_echo_request_(ident_symbolic,_4_data_bytes);_non-zero_XOR_mask_on_1_or_2_of_the_bytes_0_(type),_1_(code),_2,_3_(checksum_field);_verify_checksum_only
+    #[kani::proof]
+    pub(crate) fn verify_agrees_icmpv6_type() {
+        let src = SRC_FIX;
+        let dst = DST_FIX;
+        let mut buf = [0u8; 16];
+        let n = echo_emit(true, 0, &src, &dst, 0x3, 0, 4, &ChecksumCapabilities::default(), &mut buf);
+        corrupt(&mut buf[..n], 0xf);
+        let ok = ref_echo_ok(true, &src, &dst, &buf[..n]);
+        let got = Icmpv6Packet::new_unchecked(&buf[..n]).verify_checksum(&Ipv6Address::from(src), &Ipv6Address::from(dst));
+        kani::cover!(ok && buf[0] != 0x80, "type changed, checksum field compensates");
+        kani::cover!(!ok, "corruption detected");
+        assert!(got == ok, "prop:c08_icmpv6_verify_checksum_agrees_with_reference");
     }
 
     // RFC 8200 section 8.1: over IPv6 the UDP checksum is not optional; a datagram whose checksum
